@@ -255,10 +255,12 @@ def itemsToAppend (n : Option Int) (maxItems : Int) : Int :=
   | none => maxItems
   | some n => min n maxItems
 
-/-- `Array.fromfile(f, n)` (array_.py:382) for an item of `bitlength = isz` bits:
-    ValueError when trailing bits are present; otherwise the first `min(n, max_items)` whole items are appended,
-    and EOFError is raised afterwards when fewer than `n` were available. -/
-def arrayFromfile (data : Bits) (isz : Nat) (file : Bytes) (fk : FKind) (n : Option Int) : Except Err Bits :=
+/-- `Array.fromfile(f, n)` (array_.py:389) for an item of `bitlength = isz` bits: ValueError when trailing bits are
+    present (nothing changes); otherwise the first `min(n, max_items)` whole items are appended to `self.data`, and
+    EOFError is raised AFTERWARDS when fewer than `n` were available.  The result is the Array's data after the call
+    together with whether EOFError was raised (the append has happened either way). -/
+def arrayFromfile (data : Bits) (isz : Nat) (file : Bytes) (fk : FKind) (n : Option Int) :
+    Except Err (Bool × Bits) :=
   if isz = 0 then .error (.internal "ZeroDivisionError") else
   if data.length % isz ≠ 0 then .error .value else
   fromfileSource file fk >>= fun newData =>
@@ -267,8 +269,14 @@ def arrayFromfile (data : Bits) (isz : Nat) (file : Bytes) (fk : FKind) (n : Opt
   -- new_data[0 : items * bitlength]  (Bits.__getitem__ → getslice_withstep_msb0, same clamping as getslice)
   let piece := (newData.getslice (some 0) (some (items * isz))).buf
   match n with
-  | some n => if items < n then .error (.internal "EOFError") else .ok (data ++ piece)
-  | none => .ok (data ++ piece)
+  | some n => .ok (decide (items < n), data ++ piece)
+  | none => .ok (false, data ++ piece)
+
+/-- Wire form: `ok <data>` / `eof <data>` (EOFError raised, data as left behind) / `err`. -/
+def fromfileOut : Except Err (Bool × Bits) → String
+  | .ok (false, d) => "ok " ++ bitsToWire d
+  | .ok (true, d) => "eof " ++ bitsToWire d
+  | .error _ => "err"
 
 /-! ### driver -/
 
@@ -357,13 +365,13 @@ def handle (args : List String) : String :=
   -- afrom <dtype> <isz> <initial bits> <file hex> <n> <fkind>            (msb0)
   | "afrom" :: _dt :: isz :: init :: file :: n :: fk :: _ =>
     match isz.toNat?, bitsOfStr? init, bytesOfHex? file, optIntOfStr? n, fkindOf? fk with
-    | some isz, some b, some f, some n, some fk => out bitsToWire (arrayFromfile b isz f fk n)
+    | some isz, some b, some f, some n, some fk => fromfileOut (arrayFromfile b isz f fk n)
     | _, _, _, _, _ => "bad-op"
   -- art <dtype> <isz> <bits> <chunk> <fkind> : Array.tofile then Array(dtype).fromfile   (msb0)
   | "art" :: _dt :: isz :: bits :: chunk :: fk :: _ =>
     match isz.toNat?, bitsOfStr? bits, chunkOf? chunk, fkindOf? fk with
     | some isz, some b, some ch, some fk =>
-      out bitsToWire ((arrayTofile ch b) >>= fun w => arrayFromfile [] isz w fk none)
+      fromfileOut ((arrayTofile ch b) >>= fun w => arrayFromfile [] isz w fk none)
     | _, _, _, _ => "bad-op"
   | "big" :: _ => "skip"
   | _ => "bad-op"
